@@ -228,7 +228,7 @@ def probe_w16(counters, violations):
 
 
 def plan(tier, seed):
-    n, per = (16, 20) if tier == "quick" else (64, 160)
+    n, per = (16, 60) if tier == "quick" else (64, 250)
     return [{"seed": seed * 8191 + i * 13 + 3, "count": per, "w16": i == 0} for i in range(n)]
 
 
